@@ -49,11 +49,11 @@ def validate(ctx, items):
         progs.append(dict(id=it["id"] + "|src", code=it["text"], prelude=PRELUDE))
         seen = {}
         for c, x in it["outs"].items():
-            code = bytes(x["code"]).decode("latin-1")
+            code = bytes(x["code"]).decode("utf-8", "replace")     # what an engine reads from a .js file
             if code not in seen:
                 seen[code] = c
                 progs.append(dict(id=it["id"] + "|" + c, code=code, prelude=PRELUDE))
-        it["rep"] = {c: seen[bytes(x["code"]).decode("latin-1")] for c, x in it["outs"].items()}
+        it["rep"] = {c: seen[bytes(x["code"]).decode("utf-8", "replace")] for c, x in it["outs"].items()}
     eng = ctx.engine_run(progs) if progs else {}
     recs, byid = [], {}
     notjs = timeouts = 0
